@@ -40,6 +40,7 @@ type Layout struct {
 	Ann        string `json:"ann"`        // "inline" | "multi" | "multi-broken"
 	QuoteNames bool   `json:"quoteNames"` // rule names in quotes
 	EscNames   bool   `json:"escNames"`   // with QuoteNames: the last letter of the name written as a \\u escape
+	EscValues  bool   `json:"escValues"`  // type names inside the values of type / or / allOf / additionalProperties written with a JSON escape ("\\u0040cat", "intege\\u0072")
 	Comments   string `json:"comments"`   // "" | "eol" | "eol-bare" | "own-line" | "own-line-bare" | "block"
 	Indent     string `json:"indent"`
 	Glue       bool   `json:"glue"` // no blank at all between an element and its annotation (`1// {min: 1}`)
@@ -49,7 +50,7 @@ var Canonical = Layout{Pad: "", NL: "\n", Ann: "inline", Indent: "\t"}
 
 func (l Layout) Name() string {
 	pad := map[string]string{"": "pad0", " ": "pad1", "   ": "pad3", "\t": "tab"}[l.Pad]
-	nl := map[string]string{"\n": "lf", "\r\n": "crlf", "\r": "cr"}[l.NL]
+	nl := map[string]string{"\n": "lf", "\r\n": "crlf", "\r": "cr", "mix0": "mixed-cr-first", "mix1": "mixed-lf-first", "mix2": "mixed-crlf-first"}[l.NL]
 	if l.Glue {
 		pad += "+glued"
 	}
@@ -59,6 +60,9 @@ func (l Layout) Name() string {
 		if l.EscNames {
 			s += "-escaped"
 		}
+	}
+	if l.EscValues {
+		s += ",escaped-type-names"
 	}
 	if l.Comments != "" {
 		s += ",#" + l.Comments
@@ -99,6 +103,12 @@ func (l Layout) annotation(n *SNode, indent string) string {
 			if l.QuoteNames {
 				val = quoteInnerNames(val, l.EscNames)
 			}
+			if l.EscValues {
+				switch r.Name {
+				case "type", "or", "allOf", "additionalProperties":
+					val = escTypeNames(val)
+				}
+			}
 			if l.Pad != "" {
 				val = padInnerColons(val, l.Pad)
 			}
@@ -127,6 +137,40 @@ func (l Layout) annotation(n *SNode, indent string) string {
 		return "// " + l.Pad + body.String()
 	}
 	return "/* " + l.Pad + body.String() + " " + l.Pad + "*/"
+}
+
+var builtinTypeNames = map[string]bool{"integer": true, "float": true, "string": true, "boolean": true, "null": true, "object": true, "array": true, "any": true,
+	"mixed": true, "enum": true, "decimal": true, "email": true, "uri": true, "uuid": true, "date": true, "datetime": true}
+
+// escTypeNames rewrites every quoted type name inside a rule value with one JSON escape:
+// the @ of a user type name, the last letter of a built-in name. The string is the same.
+func escTypeNames(v string) string {
+	var b strings.Builder
+	for i := 0; i < len(v); {
+		if v[i] != '"' {
+			b.WriteByte(v[i])
+			i++
+			continue
+		}
+		j := i + 1
+		for j < len(v) && v[j] != '"' {
+			if v[j] == '\\' {
+				j++
+			}
+			j++
+		}
+		content := v[i+1 : min(j, len(v))]
+		switch {
+		case strings.Contains(content, "\\"):
+		case strings.HasPrefix(content, "@") && len(content) > 1:
+			content = "\\u0040" + content[1:]
+		case builtinTypeNames[content]:
+			content = content[:len(content)-1] + fmt.Sprintf("\\u%04x", content[len(content)-1])
+		}
+		b.WriteString(`"` + content + `"`)
+		i = j + 1
+	}
+	return b.String()
 }
 
 // quoteInnerNames puts the bare names inside a rule value (the keys of the rule-sets
@@ -218,6 +262,25 @@ func (p *printer) emit(line string) { p.lines = append(p.lines, line) }
 
 // Print renders the model, one example element per line.
 func (n *SNode) Print(l Layout) string {
+	if strings.HasPrefix(l.NL, "mix") {
+		// every line break in its own style, in rotation: CR, LF, CRLF, ... starting at the
+		// given offset (a CR directly followed by an LF reads as one CRLF: a blank line less)
+		rot := int(l.NL[3] - '0')
+		l2 := l
+		l2.NL = "\n"
+		styles := []string{"\r", "\n", "\r\n"}
+		var b strings.Builder
+		k := rot
+		for _, c := range n.Print(l2) {
+			if c == '\n' {
+				b.WriteString(styles[k%3])
+				k++
+				continue
+			}
+			b.WriteRune(c)
+		}
+		return b.String()
+	}
 	p := &printer{l: l}
 	p.node(n, "", "", "")
 	var out []string
